@@ -154,6 +154,7 @@ pub fn run(ctx: &mut Ctx) {
     ctx.floor("records.cap.ok", 12);
     ctx.floor("nyi.messages", 14);
     ctx.floor("nyi.extensions", 25);
+    ctx.floor("nyi.records", 400);
     ctx.floor("ext.roundtrip", 3_000);
     ctx.floor("cke.forms", 1_500);
     ctx.floor("parsed-values.ok", 2_000);
@@ -293,6 +294,15 @@ pub fn run(ctx: &mut Ctx) {
         let want = record(ct, ver, &payload);
         ctx.eval();
         ctx.shape(&("record", ct, msgs.len(), lc(payload.len())));
+        // the header's own len field is an input the serializer must ignore: the measured length is written
+        for hl in [msgs.len() as u16, payload.len() as u16, 0, 1, 0xffff] {
+            let mut r2 = rec.clone();
+            r2.hdr.len = hl;
+            ctx.eval();
+            if r2.serialize().ok().as_deref() != Some(&want[..]) {
+                ctx.violation("c09:record:output-depends-on-hdr-len".into(), json!({"hdr_len": hl, "messages": msgs.len(), "reference_hex": hex_short(&want)}));
+            }
+        }
         match rec.serialize() {
             Ok(b) if b == want => {
                 match parse_tls_plaintext(&b) {
@@ -469,6 +479,30 @@ pub fn run(ctx: &mut Ctx) {
                 ctx.count("nyi.messages");
             } else {
                 ctx.violation(format!("c09:unsupported:{}", kind(&m)), json!({"result": format!("{:.200?}", res)}));
+            }
+        }
+        // unsupported messages inside records of EVERY content type and header length (incl. len == message count)
+        for ct in [0x14u8, 0x15, 0x16, 0x17, 0x18, 0x42] {
+            for bad in [AMsg::Alert(1, 0), AMsg::App(vec![9]), AMsg::Hs(AHs::KeyUpdate(1)), AMsg::Hs(AHs::Certificate(vec![]))] {
+                for (pos, n) in [(0usize, 1usize), (1, 2), (0, 2), (2, 3)] {
+                    let mut msgs: Vec<AMsg> = vec![if ct == 0x16 { AMsg::Hs(AHs::HelloRequest) } else { AMsg::Ccs }; n];
+                    msgs[pos.min(n - 1)] = bad.clone();
+                    for hl in [n as u16, 0, 1, 2, 0xffff] {
+                        let rec = TlsPlaintext { hdr: TlsRecordHeader { record_type: TlsRecordType(ct), version: TlsVersion(0x0303), len: hl }, msg: msgs.iter().map(|m| m.expected()).collect() };
+                        let res = rec.serialize();
+                        ctx.eval();
+                        ctx.shape(&("nyi-record", ct, kind(&bad), n, hl.min(3)));
+                        let payload: Vec<u8> = msgs.iter().flat_map(|m| m.to_bytes()).collect();
+                        if matches!(&res, Ok(b) if *b == record(ct, 0x0303, &payload)) {
+                            ctx.unjudged("serializer-now-supports-message-in-record");
+                            ctx.count("nyi.records");
+                        } else if is_nyi(&res) {
+                            ctx.count("nyi.records");
+                        } else {
+                            ctx.violation(format!("c09:unsupported-in-record:ct=0x{:02x}:{}", ct, kind(&bad)), json!({"content_type": ct, "hdr_len": hl, "messages": n, "result": format!("{:.120?}", res)}));
+                        }
+                    }
+                }
             }
         }
         for k in 0..gen::EXT_GENERATORS {
